@@ -67,5 +67,41 @@ def mutant_desc(sid):
         return ""
 
 
+def compact():
+    """Per-property counts (for DESIGN.md section 11)."""
+    rows = {}
+    for fname, col in (("results-seeded.json", "seeded"), ("results-mutants.json", "mutants")):
+        path = os.path.join(VERIF, "selftest", fname)
+        if not os.path.exists(path):
+            continue
+        for sid, e in json.load(open(path)).items():
+            r = rows.setdefault(e["property"], {"seeded": [0, 0], "mutants": [0, 0], "controls": [0, 0], "missed": []})
+            if e.get("control"):
+                r["controls"][1] += 1
+                r["controls"][0] += 0 if e.get("caught") else 1
+            else:
+                r[col][1] += 1
+                if e.get("caught"):
+                    r[col][0] += 1
+                else:
+                    r["missed"].append(sid)
+    print("| property | independent changes caught | own mutants caught | controls silent | missed |")
+    print("|---|---|---|---|---|")
+    tot = {"seeded": [0, 0], "mutants": [0, 0], "controls": [0, 0]}
+    for prop in sorted(rows):
+        r = rows[prop]
+        for k in tot:
+            tot[k][0] += r[k][0]
+            tot[k][1] += r[k][1]
+        print("| %s | %d / %d | %d / %d | %d / %d | %s |" % (prop, r["seeded"][0], r["seeded"][1], r["mutants"][0],
+                                                        r["mutants"][1], r["controls"][0], r["controls"][1],
+                                                        " ".join(r["missed"]) or "-"))
+    print("| **all** | **%d / %d** | **%d / %d** | **%d / %d** | |" % (tot["seeded"][0], tot["seeded"][1], tot["mutants"][0],
+                                                                  tot["mutants"][1], tot["controls"][0], tot["controls"][1]))
+
+
+if "--compact" in sys.argv:
+    compact()
+    sys.exit(0)
 table(os.path.join(VERIF, "selftest", "results-seeded.json"), "Changes from independent sub-agents (`seeded/`)", seeded_desc)
 table(os.path.join(VERIF, "selftest", "results-mutants.json"), "Own mutants (`selftest/mutants/`)", mutant_desc)
